@@ -83,7 +83,7 @@ class LiborSDEFunction(SDEFunction):
             return self._sigma
         else:
             res = self._sigma.copy()
-            res[np.argwhere(self.tenors[:-1] <= t)] = 0
+            res[np.argwhere(np.asarray(self.tenors)[:-1] <= t)] = 0
             return res
 
     def __call__(self, t: float, x: np.array) -> np.array:
@@ -112,12 +112,12 @@ class ForwardMarketSDEFunction(SDEFunction):
         if self.tenors[0] > t:
             return self._sigma
         else:
-            res = self._sigma.copy()
+            # row i (period [T_i, T_i+1]) is scaled by the remaining fraction of its period
+            tenors = np.asarray(self.tenors)
             g = np.minimum(
-                1, np.maximum(0, self.tenors - t) / (self.tenors[1:] - self.tenors[:-1])
+                1, np.maximum(0, tenors[1:] - t) / (tenors[1:] - tenors[:-1])
             )
-            res = res * np.diag(g)
-            return res
+            return self._sigma * g[:, np.newaxis]
 
     def __call__(self, t: float, x: np.array) -> np.array:
         return self.sigma(t) * x
